@@ -92,7 +92,9 @@ class C01(Prop):
         hist = [dict(enginekit.BASELINE),
                 {"hashseed": 1, "noise": 4, "prior": ["rich", "same", "rich"], "mode": "step", "route": "yaml", "verbosity": 0, "sim_name": None},
                 {"hashseed": 2, "noise": 6, "prior": ["same", "interleaved"], "mode": "interactive_run", "route": "update", "verbosity": 2, "sim_name": "named_by_user", "peek": True},
-                {"hashseed": "random", "noise": 9, "prior": ["interleaved", "rich"], "mode": "interactive_explicit", "route": "holder", "verbosity": 1, "sim_name": None}]
+                {"hashseed": "random", "noise": 9, "prior": ["interleaved", "rich"], "mode": "interactive_explicit", "route": "holder", "verbosity": 1, "sim_name": None},
+                # next to a live TWIN: the same program whose clock numbers are floats (equal keys that print differently), stepped in between
+                {"hashseed": 3, "noise": 2, "prior": ["twin"], "mode": "step", "route": "args", "verbosity": 0, "sim_name": None}]
         # every service in one program, no randomness left out; driven through every remaining API and route
         rich = enginekit.gen_spec(random.Random(5), small=True, mode="services")
         rich.update(clock="datetime", step=3, n_steps=3, pop=9, crn_keys=3, uid_kind="int", stepmod=None,
@@ -139,7 +141,11 @@ class C01(Prop):
             return {"kind": "whole", "cfg": cfg, "histories": ww.gen_histories(rng, cfg, tier)}
         mode = enginekit.SPEC_MODES[i % len(enginekit.SPEC_MODES)]
         spec = enginekit.gen_spec(rng, small=(tier == "quick"), mode=mode)
-        return {"spec": spec, "histories": enginekit.gen_histories(rng, spec)}
+        hs = enginekit.gen_histories(rng, spec)
+        if spec.get("clock") == "simple" and len(hs) > 1:
+            # no use of rng: the stream of generated programs stays what it was. The last history also runs next to a live twin
+            hs[-1] = dict(hs[-1], prior=["twin"] + list(hs[-1].get("prior") or []))
+        return {"spec": spec, "histories": hs}
 
     def shrink(self, case):
         if case.get("kind") == "whole":
